@@ -289,15 +289,20 @@ class Report:
             f"&& coqc Print Assumptions on every Theorem of {vfile}"
         )
         # translator-tied files are regenerated from /repo's working tree on every run
-        try:
-            from translate import all as translate_all
-            with BuildLock():
-                translate_all.run_all()
-        except Exception as e:  # fail-closed translators: syntax outside their grammar
-            self.coverage["discharged"] = 0
-            self.coverage["translator_error"] = f"{type(e).__name__}: {e}"
-            self.broken = ("translator " + type(e).__name__, str(e))
-            return False
+        from translate import all as translate_all
+        with BuildLock():
+            translate_all.run_all()
+        stale = translate_all.stale_outputs()
+        if stale:
+            # a translator could not follow the source: the properties whose theorems rest on its output are no longer shown
+            mine = [f for f in coq_deps_closure(vfile) if f in stale]
+            self.coverage["translator_errors"] = {f: list(stale[f]) for f in stale}
+            if mine:
+                t, msg = stale[mine[0]]
+                self.coverage["discharged"] = 0
+                self.coverage["translator_error"] = msg
+                self.broken = ("translator " + t + " " + msg.split(":")[0], msg)
+                return False
         bad = audit_sources()
         if bad:
             self.coverage["discharged"] = 0
